@@ -830,3 +830,169 @@ Proof.
   destruct (accept s0); [|destruct Hin]. apply in_map_iff in Hin as [[b1 d1] [E Hin1]]. inversion E; subst.
   unfold bkeys. rewrite (in_aget_nodup N.eqb N.eqb_eq s bcs svc ND Hin0). apply in_map_iff. now exists (b, d).
 Qed.
+
+(* ---------- splitSupervoxelIndex moves exactly the split counts ---------- *)
+Definition nb (rl : list (N * N)) (b : N) : N := match aget N.eqb b rl with Some n => n | None => 0 end.
+
+Lemma two32N : 2 ^ 32 = 4294967296. Proof. reflexivity. Qed.
+
+Lemma N_eqb_neq' a b : a <> b -> (a =? b) = false.
+Proof. intro H. now apply N.eqb_neq. Qed.
+
+Lemma sv_in_false_cnt idx b s : sv_in idx s = false -> cnt idx b s = 0.
+Proof.
+  intro H. unfold cnt. destruct (aget key_eqb (b, s) idx) eqn:A; [|reflexivity].
+  apply (aget_Some_in key_eqb key_eqb_eq) in A.
+  assert (sv_in idx s = true) as C; [|congruence].
+  unfold sv_in. apply existsb_exists. exists ((b, s), n). split; [exact A | apply N.eqb_refl].
+Qed.
+
+Definition split_formula (sv split remain : N) (rl : list (N * N)) (c : N) (old : N) (b s : N) : N :=
+  if s =? sv then 0 else if s =? split then nb rl b else if s =? remain then c - nb rl b else old.
+
+Lemma split_sv_block_spec sv split remain rl acc e acc' :
+  ksv e = sv -> split <> remain -> split <> sv -> remain <> sv ->
+  cnt acc (kblock e) split = 0 -> cnt acc (kblock e) remain = 0 ->
+  (forall n, aget N.eqb (kblock e) rl = Some n -> 0 < n < 2 ^ 32) -> 0 < snd e < 2 ^ 32 ->
+  Wf acc ->
+  split_sv_block sv split remain rl (Ok acc) e = Ok acc' ->
+  nb rl (kblock e) <= snd e /\ Wf acc' /\
+  forall b s, cnt acc' b s =
+              if b =? kblock e then split_formula sv split remain rl (snd e) (cnt acc b s) b s else cnt acc b s.
+Proof.
+  intros Hk Hsr Hss Hrs Z1 Z2 Hn Hc W. unfold split_sv_block, split_formula. cbn [res_bind].
+  set (b0 := kblock e) in *. set (c := snd e) in *. unfold nb at 1.
+  destruct (aget N.eqb b0 rl) as [n|] eqn:A.
+  - destruct (Hn n eq_refl) as [Hn0 Hn32]. rewrite two32N in *.
+    assert (n mod 4294967296 = n) as Mn by (apply N.mod_small; lia). rewrite Mn.
+    assert (forall b, b = b0 -> nb rl b = n) as NB by (intros b ->; unfold nb; now rewrite A).
+    destruct (c <? n) eqn:Lt; [discriminate|]. apply N.ltb_ge in Lt.
+    destruct (n =? c) eqn:Eq; intro E; apply Ok_inj in E; subst acc'.
+    + apply N.eqb_eq in Eq. subst n. split; [lia|]. split.
+      * apply wf_aset; [now apply wf_adel | lia].
+      * intros b s. rewrite cnt_aset, cnt_adel. unfold key_eqb; simpl.
+        destruct (b =? b0) eqn:Eb; simpl; [|reflexivity]. apply N.eqb_eq in Eb; subst b. rewrite (NB b0 eq_refl).
+        destruct (s =? split) eqn:E1.
+        -- apply N.eqb_eq in E1; subst s. now rewrite (N_eqb_neq' split sv Hss).
+        -- destruct (s =? sv) eqn:E2; [reflexivity|].
+           destruct (s =? remain) eqn:E3; [|reflexivity].
+           apply N.eqb_eq in E3; subst s. rewrite Z2. lia.
+    + apply N.eqb_neq in Eq. split; [lia|]. split.
+      * apply wf_aset; [apply wf_aset; [now apply wf_adel | lia] | lia].
+      * intros b s. rewrite !cnt_aset, cnt_adel. unfold key_eqb; simpl.
+        destruct (b =? b0) eqn:Eb; simpl; [|reflexivity]. apply N.eqb_eq in Eb; subst b. rewrite (NB b0 eq_refl).
+        destruct (s =? remain) eqn:E3.
+        -- apply N.eqb_eq in E3; subst s. rewrite (N_eqb_neq' remain sv Hrs).
+           rewrite (N_eqb_neq' remain split) by congruence. reflexivity.
+        -- destruct (s =? split) eqn:E1.
+           ++ apply N.eqb_eq in E1; subst s. now rewrite (N_eqb_neq' split sv Hss).
+           ++ destruct (s =? sv); reflexivity.
+  - assert (forall b, b = b0 -> nb rl b = 0) as NB by (intros b ->; unfold nb; now rewrite A).
+    intro E; apply Ok_inj in E; subst acc'. split; [lia|]. split.
+    + apply wf_aset; [now apply wf_adel | lia].
+    + intros b s. rewrite cnt_aset, cnt_adel. unfold key_eqb; simpl.
+      destruct (b =? b0) eqn:Eb; simpl; [|reflexivity]. apply N.eqb_eq in Eb; subst b. rewrite (NB b0 eq_refl).
+      destruct (s =? remain) eqn:E3.
+      * apply N.eqb_eq in E3; subst s. rewrite (N_eqb_neq' remain sv Hrs).
+        rewrite (N_eqb_neq' remain split) by congruence. lia.
+      * destruct (s =? sv) eqn:E2; [reflexivity|].
+        destruct (s =? split) eqn:E1; [|reflexivity]. apply N.eqb_eq in E1; subst s. exact Z1.
+Qed.
+
+Lemma fold_split_err sv split remain rl L : fold_left (split_sv_block sv split remain rl) L Err = Err.
+Proof. induction L; simpl; auto. Qed.
+Lemma fold_split_panic sv split remain rl L : fold_left (split_sv_block sv split remain rl) L Panic = Panic.
+Proof. induction L; simpl; auto. Qed.
+
+Lemma split_sv_fold sv split remain rl : forall L acc acc',
+  split <> remain -> split <> sv -> remain <> sv ->
+  NoDup (map kblock L) ->
+  (forall e, In e L -> ksv e = sv /\ cnt acc (kblock e) split = 0 /\ cnt acc (kblock e) remain = 0 /\
+                       0 < snd e < 2 ^ 32) ->
+  (forall b n, aget N.eqb b rl = Some n -> 0 < n < 2 ^ 32) ->
+  Wf acc ->
+  fold_left (split_sv_block sv split remain rl) L (Ok acc) = Ok acc' ->
+  (forall e, In e L -> nb rl (kblock e) <= snd e) /\ Wf acc' /\
+  forall b s, cnt acc' b s =
+              match find (fun e => kblock e =? b) L with
+              | Some e => split_formula sv split remain rl (snd e) (cnt acc b s) b s
+              | None => cnt acc b s
+              end.
+Proof.
+  induction L as [|e r IH]; intros acc acc' Hsr Hss Hrs ND HL Hrl W H.
+  - simpl in H. apply Ok_inj in H; subst. split; [intros e []|]. split; [exact W | reflexivity].
+  - cbn [fold_left] in H. inversion ND as [|? ? Hn ND']; subst.
+    destruct (split_sv_block sv split remain rl (Ok acc) e) as [acc1| |] eqn:E1;
+      [| rewrite fold_split_err in H; discriminate | rewrite fold_split_panic in H; discriminate].
+    destruct (HL e (or_introl eq_refl)) as (Hk & Z1 & Z2 & Hc).
+    destruct (split_sv_block_spec sv split remain rl acc e acc1 Hk Hsr Hss Hrs Z1 Z2 (Hrl (kblock e)) Hc W E1)
+      as (Hle & W1 & C1).
+    destruct (IH acc1 acc' Hsr Hss Hrs ND') as (Hle' & W' & C'); [| exact Hrl | exact W1 | exact H |].
+    { intros e' He'. destruct (HL e' (or_intror He')) as (Hk' & Z1' & Z2' & Hc').
+      assert ((kblock e' =? kblock e) = false) as Ne.
+      { apply N.eqb_neq. intro Eq. apply Hn. rewrite <- Eq. apply in_map_iff. now exists e'. }
+      split; [exact Hk'|]. split; [rewrite C1, Ne; exact Z1'|]. split; [rewrite C1, Ne; exact Z2' | exact Hc']. }
+    split; [intros e' [<-|He']; auto|]. split; [exact W'|].
+    intros b s. rewrite C'. simpl. destruct (kblock e =? b) eqn:Eb.
+    + apply N.eqb_eq in Eb; subst b.
+      assert (find (fun e0 => kblock e0 =? kblock e) r = None) as Fn.
+      { destruct (find (fun e0 => kblock e0 =? kblock e) r) eqn:F; [|reflexivity].
+        apply find_some in F as [Hin Heq]. apply N.eqb_eq in Heq. exfalso. apply Hn.
+        rewrite <- Heq. apply in_map_iff. now exists p. }
+      rewrite Fn, C1, N.eqb_refl. reflexivity.
+    + destruct (find (fun e0 => kblock e0 =? b) r) as [e'|]; rewrite C1, (N.eqb_sym b (kblock e)), Eb; reflexivity.
+Qed.
+
+Theorem split_sv_index_spec idx sv split remain rl idx' :
+  Wf idx -> split <> remain -> split <> sv -> remain <> sv ->
+  sv_in idx split = false -> sv_in idx remain = false ->
+  (forall b n, aget N.eqb b rl = Some n -> 0 < n < 2 ^ 32) ->
+  (forall b s, cnt idx b s < 2 ^ 32) ->
+  split_sv_index idx sv split remain rl = Ok idx' ->
+  Wf idx' /\
+  (forall b, 0 < cnt idx b sv -> nb rl b <= cnt idx b sv) /\
+  forall b s, cnt idx' b s =
+              if 0 <? cnt idx b sv then split_formula sv split remain rl (cnt idx b sv) (cnt idx b s) b s
+              else cnt idx b s.
+Proof.
+  intros W Hsr Hss Hrs Fs Fr Hrl Hb H. unfold split_sv_index in H.
+  set (L := filter (fun e => ksv e =? sv) idx) in *.
+  destruct W as [ND P]. rewrite Forall_forall in P.
+  assert (forall e, In e L -> In e idx /\ ksv e = sv) as HLin.
+  { intros e He. apply filter_In in He as [H1 H2]. apply N.eqb_eq in H2. auto. }
+  assert (forall e, In e L -> cnt idx (kblock e) sv = snd e) as Hcnt.
+  { intros [[b s] c] He. destruct (HLin _ He) as [Hin Hk]. unfold ksv in Hk; simpl in Hk; subst s.
+    unfold cnt, kblock; simpl. now rewrite (in_aget_nodup key_eqb key_eqb_eq (b, sv) c idx ND Hin). }
+  assert (NoDup (map kblock L)) as NDL.
+  { unfold L. clear - ND. unfold keys_of in ND. induction idx as [|[[b s] c] r IH]; simpl; [constructor|].
+    inversion ND as [|? ? Hn ND']; subst. unfold ksv at 1; simpl. destruct (s =? sv) eqn:E; [|auto].
+    apply N.eqb_eq in E; subst s. simpl. constructor; [|auto].
+    intro Hin. apply in_map_iff in Hin as [[[b' s'] c'] [Hb Hin]]. unfold kblock in Hb; simpl in Hb; subst b'.
+    apply filter_In in Hin as [Hin Hs]. unfold ksv in Hs; simpl in Hs. apply N.eqb_eq in Hs; subst s'.
+    apply Hn. apply in_map_iff. now exists ((b, sv), c'). }
+  destruct (split_sv_fold sv split remain rl L idx idx' Hsr Hss Hrs NDL) as (Hle & W' & C'); try assumption.
+  { intros e He. destruct (HLin e He) as [Hin Hk]. repeat split; try assumption.
+    - now apply sv_in_false_cnt.
+    - now apply sv_in_false_cnt.
+    - now apply P.
+    - rewrite <- (Hcnt e He). apply Hb. }
+  { split; [exact ND | now apply Forall_forall]. }
+  assert (forall b, match find (fun e => kblock e =? b) L with
+                    | Some e => cnt idx b sv = snd e /\ In e L /\ kblock e = b
+                    | None => cnt idx b sv = 0
+                    end) as Hfind.
+  { intro b. destruct (find (fun e => kblock e =? b) L) as [e|] eqn:F.
+    - apply find_some in F as [Hin Heq]. apply N.eqb_eq in Heq. subst b. auto.
+    - unfold cnt. destruct (aget key_eqb (b, sv) idx) as [c|] eqn:A; [|reflexivity].
+      apply (aget_Some_in key_eqb key_eqb_eq) in A. exfalso.
+      assert (In ((b, sv), c) L) as HinL by (apply filter_In; split; [exact A | apply N.eqb_refl]).
+      pose proof (find_none _ _ F _ HinL) as X. unfold kblock in X; simpl in X. now rewrite N.eqb_refl in X. }
+  split; [exact W'|]. split.
+  - intros b Hpos. specialize (Hfind b). destruct (find (fun e => kblock e =? b) L) as [e|].
+    + destruct Hfind as (Hc & Hin & Hkb). rewrite Hc, <- Hkb. now apply Hle.
+    + lia.
+  - intros b s. rewrite C'. specialize (Hfind b). destruct (find (fun e => kblock e =? b) L) as [e|].
+    + destruct Hfind as (Hc & Hin & Hkb). destruct (HLin e Hin) as [Hine _]. pose proof (P e Hine).
+      rewrite Hc. destruct (0 <? snd e) eqn:Pz; [reflexivity | apply N.ltb_ge in Pz; lia].
+    + rewrite Hfind. reflexivity.
+Qed.
